@@ -8,13 +8,11 @@ import (
 func read(rd io.Reader) (byte, error) {
 	var b = make([]byte, 1)
 
-	i, err := rd.Read(b)
+	// a Read may deliver the byte together with io.EOF, or nothing at all
+	// without an error: the byte counts, the call is repeated otherwise
+	_, err := io.ReadFull(rd, b)
 
 	if err != nil {
-		return 0, err
-	}
-
-	if i != 1 {
 		return 0, err
 	}
 
